@@ -368,6 +368,14 @@ def trim_formulae(ck, rule):
     ctx = ck.ctx
     p = ctx.p
     trim = p.find_method("OpticalMap", "trim")
+    # a memoised trim must be keyed by everything it reads: the label list above all
+    from ..rules.effects import memoised_with_incomplete_key
+    mk = memoised_with_incomplete_key(p, trim)
+    if mk is not None:
+        ck.violation(rule, short(trim) + ":memo-key", trim.where,
+                     f"trim is memoised ({mk[0]}) but reads self.{', self.'.join(mk[1])}, which is {mk[2]}: a map with the same id and "
+                     "length but other labels gets the trimmed map of the one that came first",
+                     found=f"@{mk[0]}", required="no memo, or the label list as part of the key")
     # ---- C17.5
     positions = self_attr("positions")
     first, last = T.mk_idx(positions, C(0)), T.mk_idx(positions, C(-1))
